@@ -680,7 +680,10 @@ pub fn run_sched_case(case: &SchedCase, prop: &str, trace: bool) -> SchedRun {
     }
 
     // ---- C03: nothing is lost below capacity (unbounded configurations) -----------
-    if prop == "C03" && case.cfg.cap.is_none() {
+    // (C07 runs the same oracle for its "precise" clause: keys re-inserted after an
+    // invalidation remain retrievable)
+    if (prop == "C03" || (prop == "C07" && stats.had_invalidation)) && case.cfg.cap.is_none() {
+        let prop_static: &'static str = if prop == "C07" { "C07" } else { "C03" };
         let now_clock = clock_ns.load(Ordering::SeqCst);
         for (k, ws) in &writes {
             // the unique last write, if there is one that no other write overlaps or follows
@@ -699,7 +702,7 @@ pub fn run_sched_case(case: &SchedCase, prop: &str, trace: bool) -> SchedRun {
                 continue;
             }
             if !snap.entries.iter().any(|e| e.k == *k && e.seq == seq) {
-                mkret!(Violation { prop: "C03", step: stats.steps as usize, msg: format!("no max_capacity is configured and insert(k{k}, v{seq}) [{}..{}] was the last write of that key (every other write of it had completed before it began), it is neither expired (age {} of {:?}) nor invalidated, yet after quiescence the cache holds {:?} for that key", w.start, w.end, fmt_ns(age), min_d, snap.entries.iter().find(|e| e.k == *k).map(|e| e.seq)) });
+                mkret!(Violation { prop: prop_static, step: stats.steps as usize, msg: format!("no max_capacity is configured and insert(k{k}, v{seq}) [{}..{}] was the last write of that key (every other write of it had completed before it began), it is neither expired (age {} of {:?}) nor invalidated, yet after quiescence the cache holds {:?} for that key", w.start, w.end, fmt_ns(age), min_d, snap.entries.iter().find(|e| e.k == *k).map(|e| e.seq)) });
             }
             stats.refill_checked = true;
         }
@@ -821,6 +824,8 @@ fn litmus() -> Vec<(&'static str, SchedCase)> {
         ("update; invalidate || sync || get", SchedCase { cfg: base(Some(2), None), init: vec![ins(0, 1), TOp::Sync], threads: vec![vec![ins(0, 2), TOp::Invalidate { k: 0 }], vec![TOp::Sync], vec![get(0)]], preempt: vec![], first: 0 }),
         ("invalidate || re-insert; sync; get(c); insert(c, heavy); sync", SchedCase { cfg: base(Some(2), None), init: vec![ins(0, 1), TOp::Sync], threads: vec![vec![TOp::Invalidate { k: 0 }], vec![ins(0, 1), TOp::Sync, get(1), TOp::Sync, ins(1, 2), TOp::Sync, get(1)]], preempt: vec![], first: 0 }),
         ("invalidate || re-insert; get(c); insert(c, heavy) (no explicit sync)", SchedCase { cfg: base(Some(2), None), init: vec![ins(0, 1), TOp::Sync], threads: vec![vec![TOp::Invalidate { k: 0 }], vec![ins(0, 1), get(1), get(1), ins(1, 2), get(0), get(1)]], preempt: vec![], first: 0 }),
+        ("sync || invalidate; insert; get (old value at its tti)", SchedCase { cfg: Cfg { tti: Some(SEC), ..base(None, None) }, init: vec![ins(0, 1), TOp::Sync], threads: vec![vec![TOp::Sync], vec![TOp::Advance { ns: SEC }, TOp::Invalidate { k: 0 }, ins(0, 1), get(0)]], preempt: vec![], first: 0 }),
+        ("sync || invalidate_all; invalidate; insert; get", SchedCase { cfg: base(None, None), init: vec![ins(0, 1), TOp::Sync, TOp::Advance { ns: 1 }], threads: vec![vec![TOp::Sync], vec![TOp::InvalidateAll, TOp::Invalidate { k: 0 }, ins(0, 1), get(0)]], preempt: vec![], first: 0 }),
         ("invalidate_all || invalidate_all (clock advancing)", SchedCase { cfg: base(None, None), init: vec![ins(0, 1), TOp::Advance { ns: 1 }], threads: vec![vec![TOp::InvalidateAll], vec![TOp::Advance { ns: 1 }, ins(1, 1), TOp::Advance { ns: 1 }, TOp::InvalidateAll, get(1)]], preempt: vec![], first: 0 }),
     ]
 }
